@@ -279,8 +279,19 @@ def drive(tier):
         bitcoin.SelectParams(ch)
         cat = tx_catalogue(r, big=(ch == "mainnet"))
         for name, d in cat + [("rand", valid_tx(r, r.randrange(1, 4), r.randrange(1, 4))) for _ in range(10 if tier == "quick" else 200)]:
-            for mut in (False, True):
-                tx = gen.build_tx(d, mut)
+            for mut in (False, True, "mixed"):
+                if mut == "mixed":
+                    # a mutable transaction whose inputs were added by hand: mutable and immutable outpoint objects side by side
+                    if len(d["vin"]) < 2 or "size" in name:
+                        continue
+                    from bitcoin.core import CTxIn, COutPoint
+                    from bitcoin.core.script import CScript
+                    tx = gen.build_tx(dict(d, vin=d["vin"][:1]), True)
+                    for i_ in d["vin"][1:]:
+                        tx.vin.append(CTxIn(COutPoint(i_["hash"], i_["n"]), CScript(i_["script"]), i_["seq"]))
+                    mut = True
+                else:
+                    tx = gen.build_tx(d, mut)
                 k, v = call(CheckTransaction, tx)
                 if mut and "size" in name:
                     continue
